@@ -613,7 +613,7 @@ fn careful(exe: &str, def: &CheckDef, tier: Tier, seed: u64, total: u64, b: u64,
             Ok(Some(l)) => {
                 if let Some(r) = l.strip_prefix("S ") {
                     cur = r.trim().parse().ok();
-                } else if l.starts_with('F') {
+                } else if l.trim() == "F" {
                     let _ = c.wait();
                     return None;
                 }
@@ -678,7 +678,7 @@ pub fn run_batch(def: &CheckDef, tier: Tier, seed: u64) -> BatchResult {
                 } else if l.starts_with("E ") {
                     k.done_blocks += 1;
                     k.cur_block = None;
-                } else if l.starts_with('F') {
+                } else if l.trim() == "F" {
                     k.finished = true;
                 }
             }
